@@ -842,6 +842,11 @@ impl Scanner for EntryScanner<'_> {
                                 .expect("failed to make root name"));
                         }
                     }
+                    // An empty label anywhere else (`a..b`, `a..`) is not a
+                    // name: only the root label is empty and it comes last.
+                    if write == start + 1 {
+                        return Err(EntryError::bad_name());
+                    }
                     if write > 254 {
                         return Err(EntryError::bad_name());
                     }
